@@ -333,6 +333,10 @@ def check(model, rep, tier):
   rets = key_cases(gk, "hasattr(%s, '__code__')" % ep, 'HAS_CODE')
   ok = decides(rets, 'HAS_CODE', ep + '.__code__', ep)
   rets = [(str(f), v) for f, v in rets]
+  if not ok:
+    # getattr(entity, '__code__', entity): the same decision in one expression
+    rs_ = [r for r in core.walk_no_nested(gk.node) if isinstance(r, ast.Return)]
+    ok = len(rs_) == 1 and core.norm(rs_[0].value) == "getattr(%s, '__code__', %s)" % (ep, ep)
   rep.check(ok, 'CACHE-KEY', '%s:code-object' % gk.site,
             'the cache key must be the code object itself (not a name, id or '
             'hash), falling back to the entity', {'returns': rets},
